@@ -62,6 +62,81 @@ theorem unrelated_report_noop (env : Env) (s : St) (now : Nat) (sc : Nat → Int
       rw [hna]
       exact ⟨rfl, rfl⟩
 
+/-! ## The penalty model, over the constants extracted from issues.rs / scoring.rs / manager.rs
+
+Ideal (exact rational) arithmetic of the default scorers: total score =
+`DEFAULT_RELIABILITY_IMPACT · reliability + DEFAULT_LENGTH_IMPACT · (LENGTH_MAX − hops · (MAX − MIN)/HOP_COUNT)`.
+A path that carried no penalty and is hit by one issue has reliability `−penalty` (`ReliabilityScore::update`:
+decayed old score 0 plus the penalty; `|penalty| ≤ 1`, so the clamp is the identity).  The statements are about
+the *extracted* constants, so a retuned penalty / threshold / weight re-checks them.  The f32 rounding of the
+real scorer (relative error < 2^-22 per operation) is far inside the margins (0.876 vs 0.5; 0.4 vs 0.5). -/
+
+/-- fractions `n/d` with `d > 0`, compared by cross-multiplication -/
+structure Fr where
+  n : Int
+  d : Nat
+def Fr.lt (a b : Fr) : Prop := a.n * b.d < b.n * a.d
+instance (a b : Fr) : Decidable (Fr.lt a b) := by unfold Fr.lt; exact inferInstance
+def Fr.add (a b : Fr) : Fr := ⟨a.n * b.d + b.n * a.d, a.d * b.d⟩
+def Fr.sub (a b : Fr) : Fr := ⟨a.n * b.d - b.n * a.d, a.d * b.d⟩
+def Fr.mul (a b : Fr) : Fr := ⟨a.n * b.n, a.d * b.d⟩
+def Fr.neg (a : Fr) : Fr := ⟨-a.n, a.d⟩
+/-- `a / (n/d)` for a positive `n/d` -/
+def Fr.divPos (a : Fr) (bn bd : Nat) : Fr := ⟨a.n * bd, a.d * bn⟩
+def fr (n d : Nat) : Fr := ⟨n, d⟩
+
+def penaltyLinkDown : Fr := fr PENALTY_LINK_DOWN_NUM PENALTY_LINK_DOWN_DEN
+def penaltyFirstHop : Fr := fr PENALTY_FIRST_HOP_NUM PENALTY_FIRST_HOP_DEN
+def defaultThreshold : Fr := fr DEFAULT_PATH_SWAP_SCORE_THRESHOLD_NUM DEFAULT_PATH_SWAP_SCORE_THRESHOLD_DEN
+/-- `PathLengthScorer::score` for `hops` hop fields (below `HOP_COUNT_FOR_MIN_SCORE` the clamp is the identity) -/
+def lengthScore (hops : Nat) : Fr :=
+  (fr LENGTH_MAX_SCORE_NUM LENGTH_MAX_SCORE_DEN).sub
+    ((fr hops 1).mul (((fr LENGTH_MAX_SCORE_NUM LENGTH_MAX_SCORE_DEN).sub (fr LENGTH_MIN_SCORE_NUM LENGTH_MIN_SCORE_DEN)).divPos
+      LENGTH_HOP_COUNT_FOR_MIN_SCORE_NUM LENGTH_HOP_COUNT_FOR_MIN_SCORE_DEN))
+/-- `PathScorer::score` with the default scorers -/
+def totalScore (reliability : Fr) (hops : Nat) : Fr :=
+  ((fr DEFAULT_RELIABILITY_IMPACT_NUM DEFAULT_RELIABILITY_IMPACT_DEN).mul reliability).add
+    ((fr DEFAULT_LENGTH_IMPACT_NUM DEFAULT_LENGTH_IMPACT_DEN).mul (lengthScore hops))
+/-- score gap between an unpenalised alternative (`hq` hop fields) and the active path (`ha` hop fields)
+    right after one issue with penalty `pen` hit the so far unpenalised active path -/
+def freshGap (pen : Fr) (ha hq : Nat) : Fr := (totalScore ⟨0, 1⟩ hq).sub (totalScore pen.neg ha)
+
+/-- **link_down_opens_gap_default.** Default configuration, default scorers: one SCMP interface-down /
+    connectivity-down report on the (unpenalised) active path opens a score gap to every unpenalised
+    alternative that exceeds the default swap threshold, whatever the two path lengths (up to the 50 hop
+    fields of the length scorer's range).  Together with the swap rule of `decide_active_path_update`
+    (model: `swapCheck`; code: oracle `C07:steer-away`) this is the steer-away clause for link failures. -/
+theorem link_down_opens_gap_default :
+    ∀ ha ≤ 50, ∀ hq ≤ 50, Fr.lt defaultThreshold (freshGap penaltyLinkDown ha hq) := by
+  decide +kernel
+
+/- **first_hop_opens_gap_default** (the same statement for a local first-hop send failure, FALSE on the
+   current constants – known finding `C07:steer-away:first-hop-penalty-below-threshold`):
+     ∀ ha ≤ 50, ∀ hq ≤ 50, Fr.lt defaultThreshold (freshGap penaltyFirstHop ha hq) -/
+
+/-- **first_hop_default_no_steer_witness.** The negation: a first-hop send failure on the active path
+    does not open a gap above the default threshold (e.g. two paths of 3 hop fields: gap 0.4 ≤ 0.5). -/
+theorem first_hop_default_no_steer_witness :
+    ¬ (∀ ha ≤ 50, ∀ hq ≤ 50, Fr.lt defaultThreshold (freshGap penaltyFirstHop ha hq)) := by
+  decide +kernel
+
+/-- **first_hop_default_never_steers.** Stronger: for *no* pair of path lengths in the length scorer's
+    range does a single first-hop failure on an unpenalised active path open a gap above the default
+    threshold – with the default configuration one first-hop send failure never switches paths. -/
+theorem first_hop_default_never_steers :
+    ∀ ha ≤ 50, ∀ hq ≤ 50, ¬ Fr.lt defaultThreshold (freshGap penaltyFirstHop ha hq) := by
+  decide +kernel
+
+/-- the default threshold in the unit of the model (`defaultCfg.swapThreshold`, 2^-149) is the extracted
+    fraction: ties the `Fr` statements to the configuration the model runs with -/
+theorem defaultThreshold_units :
+    defaultCfg.swapThreshold * DEFAULT_PATH_SWAP_SCORE_THRESHOLD_DEN =
+      DEFAULT_PATH_SWAP_SCORE_THRESHOLD_NUM * 2 ^ SCORE_UNIT_LOG2 := by
+  decide +kernel
+
+example : Fr.lt defaultThreshold (freshGap penaltyLinkDown 3 3) := by decide
+example : ¬ Fr.lt defaultThreshold (freshGap penaltyFirstHop 3 3) := by decide
+
 /- **steer_away** (full statement, FALSE – see the witness below):
      the active path `a` matches the reported target, a valid cached path `q` does not
      ⟹ after delivery the active path does not match the target.
@@ -71,33 +146,52 @@ theorem unrelated_report_noop (env : Env) (s : St) (now : Nat) (sc : Nat → Int
 private def pa : Path := ⟨1, some 9000, 1, 2, some [⟨1, 1⟩, ⟨7, 1⟩, ⟨7, 4⟩, ⟨2, 1⟩], some 1, some 1⟩
 private def pq : Path := ⟨2, some 9000, 1, 2, some [⟨1, 2⟩, ⟨8, 2⟩, ⟨8, 5⟩, ⟨2, 2⟩], some 2, some 2⟩
 private def envS : Env := { cfg := defaultCfg, src := 1, dst := 2, allowed := fun _ => true }
-/-- active `pa`, alternative `pq` cached; the issue "interface 7#4 down" is queued -/
-private def sS : St :=
-  { cached := [pa, pq], active := some pa, nextRefetch := 0, nextIdle := 0, initialized := true,
-    pending := [⟨.interface 7 none 4, 0⟩] }
-/-- scores after ingestion in units of 1/1000: both paths carry a fresh −1 penalty -/
-private def scBoth : Nat → Int := fun _ => -906 * 2 ^ 139
-/-- only the active path is penalised -/
-private def scOne : Nat → Int := fun fp => if fp = 1 then -906 * 2 ^ 139 else 94 * 2 ^ 139
 
-/-- **steer_away_witness.** With the default configuration: the active path crosses the failed
-    interface, a valid cached path avoids it, but that alternative carries its own fresh penalty – the
-    active path is kept. -/
+/-- a score of the ideal penalty model in the unit of the model (2^-149), rounded towards −∞ -/
+def Fr.units (x : Fr) : Int := x.n * 2 ^ SCORE_UNIT_LOG2 / x.d
+/-- both paths (3 hop fields each) unpenalised -/
+private def scNone : Nat → Int := fun _ => (totalScore ⟨0, 1⟩ 3).units
+/-- only `pq` carries a fresh link-down penalty -/
+private def scQ : Nat → Int := fun fp =>
+  if fp = 2 then (totalScore penaltyLinkDown.neg 3).units else (totalScore ⟨0, 1⟩ 3).units
+/-- both carry a fresh link-down penalty (the two reports are one second apart; the decay of one second,
+    factor 2^(-1/90), is ignored – it changes the gap by less than 0.01) -/
+private def scBoth : Nat → Int := fun _ => (totalScore penaltyLinkDown.neg 3).units
+/-- only the active path is penalised -/
+private def scOne : Nat → Int := fun fp =>
+  if fp = 1 then (totalScore penaltyLinkDown.neg 3).units else (totalScore ⟨0, 1⟩ 3).units
+
+/-- a history of the model: fetch `pa`, `pq` (`pa` becomes active); "8#5 down" (on `pq`) is reported and
+    delivered at 2 s; "7#4 down" (on the active `pa`) is reported at 3 s and queued -/
+private def opsS : List Op :=
+  [.maintain 0 (.ok [pa, pq]) scNone scNone [1, 2] 0,
+   .report (.extIfDown 8 5) 11 (2 * NS), .deliver (2 * NS) scQ,
+   .report (.extIfDown 7 4) 12 (3 * NS)]
+private def sS : St := run envS 0 opsS
+
+/-- **steer_away_witness.** The property's first clause, read literally (no hypothesis about scores), is
+    false on a *reachable* state of the default configuration with the scores of the extracted penalty
+    model: the active path crosses the failed interface, a valid cached path avoids it, but that
+    alternative carries its own fresh link-down penalty – the gap stays below the swap threshold and the
+    active path is kept (known finding `C07:steer-away:alternative-penalised`; the same history is replayed
+    on the real code by `probe-alternative-penalised`). -/
 theorem steer_away_witness :
-    ¬ (∀ (env : Env) (s : St) (now : Nat) (sc : Nat → Int) (m : Marker) (a q : Path),
-        s.pending = [m] → s.active = some a → m.target.matchesPath a = true →
-        q ∈ s.cached → checkExpiry q now env.cfg.minExpiryThreshold = .valid →
+    ¬ (∀ (env : Env) (t0 : Nat) (ops : List Op) (now : Nat) (sc : Nat → Int) (m : Marker) (a q : Path),
+        (run env t0 ops).pending = [m] → (run env t0 ops).active = some a →
+        m.target.matchesPath a = true →
+        q ∈ (run env t0 ops).cached → checkExpiry q now env.cfg.minExpiryThreshold = .valid →
         m.target.matchesPath q = false →
-        ∀ a', (deliver env s now sc).active = some a' → m.target.matchesPath a' = false) := by
+        ∀ a', (deliver env (run env t0 ops) now sc).active = some a' → m.target.matchesPath a' = false) := by
   intro h
-  have := h envS sS 1000000000 scBoth ⟨.interface 7 none 4, 0⟩ pa pq rfl rfl (by decide) (by decide)
-    (by decide) (by decide) pa (by decide)
+  have := h envS 0 opsS (3 * NS) scBoth ⟨.interface 7 none 4, 3 * NS⟩ pa pq (by decide) (by decide)
+    (by decide) (by decide) (by decide) (by decide) pa (by decide)
   revert this
   decide
 
 /-- non-vacuity / the intended behaviour: when the alternative is unpenalised the very next
     re-evaluation switches to it -/
-example : (deliver envS sS 1000000000 scOne).active = some pq := by decide
+example : sS.active = some pa ∧ sS.cached = [pa, pq] := by decide
+example : (deliver envS sS (3 * NS) scOne).active = some pq := by decide
 example : (Target.interface 7 none 4).matchesPath pq = false := by decide
 
 end ScionVerif.PathMgr
